@@ -823,13 +823,16 @@ def corpus(prop=None):
 # generators
 
 
-def bset(size, cap, e, small=False):
-    """boundary values of DESIGN 3.4 for one argument"""
+def bset(size, cap, e, small=False, limit_edge=True):
+    """boundary values of DESIGN 3.4 for one argument (+ the values around the harness's
+    allocation limit when `limit_edge`)"""
     vs = [0, 1, 2, size - 1, size, size + 1, cap - 1, cap, cap + 1,
           2 ** 31 - 1, 2 ** 31 + 1, 2 ** 32 - 1, 2 ** 32 + 1,
           M // e - 1, M // e, M // e + 1, 2 ** 63, M - 2, M - 1, M]
     if not small:
-        vs += [2 ** 31, 2 ** 32, LIMIT // e - 2, LIMIT // e - 1, LIMIT // e, 2 ** 63 - 1, 2 ** 63 + 1, M - 3]
+        vs += [2 ** 31, 2 ** 32, 2 ** 63 - 1, 2 ** 63 + 1, M - 3]
+        if limit_edge:
+            vs += [LIMIT // e - 2, LIMIT // e - 1, LIMIT // e]
     out = []
     for v in vs:
         if 0 <= v <= M and v not in out:
@@ -882,11 +885,15 @@ def string_boundaries(tier):
     for wd, e in (("s", 1), ("w", 4)):
         a, b = wd + "0", wd + "1"
         for pre, size, cap in string_states(wd):
-            full = bset(size, cap, e, small=(tier == "quick"))
+            # the string model stores unit by unit (quadratic in the length): the values just below the
+            # allocation limit are used with the single-argument calls of the wide string only
+            full = bset(size, cap, e, small=(tier == "quick"), limit_edge=False)
+            single = full + ([LIMIT // e - 3, LIMIT // e - 2, LIMIT // e - 1] if (tier != "quick" and e == 4 and size == 3 and cap == 3)
+                             else [] if tier == "quick" else [LIMIT // e - 1, LIMIT // e])
             posset = [v for v in full if v <= size + 1 or v in (2 ** 32 + 1, M // e + 1, 2 ** 63, M - 1, M)] \
                 if tier == "quick" else full
             tail = ["str %s" % a, "appch %s 1 122" % a, "str %s" % a]
-            for n in full:
+            for n in single:
                 scripts.append(pre + ["sresize %s %s" % (a, sz(n))] + tail)
                 scripts.append(pre + ["sreserve %s %s" % (a, sz(n)), "appch %s 2 122" % a] + tail)
                 scripts.append(pre + ["appch %s %s 120" % (a, sz(n))] + tail)
